@@ -95,6 +95,7 @@ class ADAPTAnsatz(Ansatz):
 
     def update_var_params(self, var_params):
         """Update variational parameters (done repeatedly during VQE)."""
+        self.set_var_params(var_params)
 
         for var_index in range(self.n_var_params):
             length_op = self._n_terms_operators[var_index]
